@@ -267,7 +267,7 @@ def strip_last_label(routine_ops: list[list[SsbOperation]]) -> list[list[SsbOper
                 jump_counts[op.label.id] = jump_counts.get(op.label.id, 0) + 1
     for routine in routine_ops:
         if len(routine) > 0:
-            while isinstance(routine[-1], SsbLabel):
+            while len(routine) > 0 and isinstance(routine[-1], SsbLabel):
                 indices_to_remove = set()
                 label = routine[-1]
                 # Remove the label
